@@ -8,7 +8,8 @@ OPS=$1; W=$2; mkdir -p "$W"
 export GOFLAGS=-mod=mod GOPROXY=off GOSUMDB=off GOTOOLCHAIN=local CGO_ENABLED=1
 if ! go build -race -o "$W/gvharness-race" . 2>"$W/race-build.err"; then echo "skipped: go build -race unavailable"; exit 0; fi
 go build -race -tags purego -o "$W/gvharness-race-purego" .
-grep -E '^C18 [a-z0-9]+ [a-z0-9-]+ [0-9a-f]+ [0-9a-f]+ [0-9a-f]+ [0-9a-f]+$' "$OPS" > "$W/race-ops.txt" || true
+# entry-point lines and the `par` lines (entry points above the size threshold of their parallel implementation)
+grep -E '^C18 (par )?[a-z0-9]+ [a-z0-9-]+ [0-9a-f]+ [0-9a-f]+ [0-9a-f]+ [0-9a-f]+$' "$OPS" > "$W/race-ops.txt" || true
 for b in gvharness-race gvharness-race-purego; do
   rm -f "$W/$b.log."*
   GORACE="log_path=$W/$b.log halt_on_error=0" "$W/$b" -mode exec < "$W/race-ops.txt" > "$W/$b.out" 2>/dev/null || true
